@@ -420,33 +420,35 @@ func ruleToVecChunks(cx *Ctx) []Obligation {
 	if bitsVal == nil {
 		return []Obligation{bad(key, desc, "no api.ToBinary(hash) (canonical decomposition) in ToVec", where)}
 	}
+	// the loop tiling the bits (counted, cursor or multiplier form — see rules_tiling.go): windows [S, min(len, S+w))
 	for _, l := range fi.Loops {
-		if !l.Counted || !l.SingleExit || l.StartConst == nil || *l.StartConst != 0 || l.RangeForm {
+		tl, _ := tileOf(fi, l, bitsVal)
+		if tl == nil {
 			continue
 		}
-		// bound must be len(bits)
-		bc, ok := l.Bound.(*ssa.Call)
-		if !ok || bc.Common().Args[0] != bitsVal {
-			continue
-		}
-		// chunk = bits[i : min(len, i+w)] handed to FromBinary
-		for b := range l.Blocks {
+		// chunk = bits[S : min(len, S+w)] handed to FromBinary
+		for _, b := range fn.Blocks {
+			if !l.Blocks[b] {
+				continue
+			}
 			for _, ins := range b.Instrs {
 				sl, ok := ins.(*ssa.Slice)
 				if !ok || sl.X != bitsVal {
 					continue
 				}
-				if sl.Low != l.IndexVal {
+				if sl.Low == nil || !ipolyEq(poly(sl.Low), tl.start) {
 					return []Obligation{bad(key, desc, "chunks do not start at the loop index", P.Pos(sl.Pos()))}
 				}
-				w := hiMinusLow(sl.High, sl.Low, 0)
+				w, wok := widthOf(sl.High, sl.Low, bitsVal)
 				switch {
-				case w >= inf:
+				case !wok:
 					return []Obligation{bad(key, desc, "chunk width is not bounded by a constant", P.Pos(sl.Pos()))}
 				case w > 63:
 					return []Obligation{bad(key, desc, fmt.Sprintf("chunk width %d > 63 bits: a chunk can exceed the Goldilocks prime, so two hashes can give the same reduced elements", w), P.Pos(sl.Pos()))}
-				case l.Step != w:
-					return []Obligation{bad(key, desc, fmt.Sprintf("the loop advances by %d bits but chunks are %d bits wide (bits skipped or overlapped)", l.Step, w), P.Pos(sl.Pos()))}
+				case tl.w != w:
+					return []Obligation{bad(key, desc, fmt.Sprintf("the loop advances by %d bits but chunks are %d bits wide (bits skipped or overlapped)", tl.w, w), P.Pos(sl.Pos()))}
+				case !mustInLoop(fi, l, sl.Block()):
+					return []Obligation{bad(key, desc, "a chunk is skipped for some iterations", P.Pos(sl.Pos()))}
 				}
 				// the chunk must reach FromBinary and then the result slice
 				used := false
@@ -458,7 +460,7 @@ func ruleToVecChunks(cx *Ctx) []Obligation {
 				if !used {
 					return []Obligation{bad(key, desc, "the chunk is not recomposed with FromBinary", P.Pos(sl.Pos()))}
 				}
-				return []Obligation{good(key, desc, fmt.Sprintf("%s chunk width %d, step %d", P.Pos(sl.Pos()), w, l.Step))}
+				return []Obligation{good(key, desc, fmt.Sprintf("%s chunk width %d, step %d", P.Pos(sl.Pos()), w, tl.w))}
 			}
 		}
 	}
